@@ -126,6 +126,28 @@ func cacheCall(cache string, t reflect.Type, k int) string {
 	}
 }
 
+// a call of the driver's own, outside any schedule: alone it returns at once; if it does not, a lock was left held by
+// the schedule before it (every later first use would wait for ever: the cache is written off for this process)
+var cacheDead = map[string]bool{}
+
+func cacheCallWithin(cache string, t reflect.Type, k int) (res string, returned bool) {
+	done := make(chan string, 1)
+	go func() {
+		r := ""
+		if pn := protect(func() { r = cacheCall(cache, t, k) }); pn != "" {
+			r = pn
+		}
+		done <- r
+	}()
+	select {
+	case res = <-done:
+		return res, true
+	case <-time.After(5 * time.Second):
+		cacheDead[cache] = true
+		return "", false
+	}
+}
+
 func gateType(label string) reflect.Type {
 	n := typeCounter.Add(1)
 	return reflect.StructOf([]reflect.StructField{
@@ -136,6 +158,9 @@ func gateType(label string) reflect.Type {
 func c09Gated(c *Ctx, k c09Case) {
 	gateMu.Lock()
 	defer gateMu.Unlock()
+	if cacheDead[k.Cache] {
+		return // reported once, by the schedule that left the lock held
+	}
 	v := k.Vec
 	fail := func(api, w, g string) { c.Diverge("C09", api+"["+k.Cache+"]", w, g, "", k) }
 	// the code leaves the protocol of the model without (visibly) breaking the property: the model has to follow
@@ -361,7 +386,13 @@ func c09Gated(c *Ctx, k c09Case) {
 	// every call returned what it returns alone
 	for _, p := range procs {
 		for i, tl := range progs[p] {
-			if want := cacheCall(k.Cache, gateType(tl), i+1); i < len(results[p]) && results[p][i] != want && k.Cache != "proto.type" {
+			want, returned := cacheCallWithin(k.Cache, gateType(tl), i+1)
+			if !returned {
+				theGate = nil
+				fail("first use of another type after the schedule", "returns (as it does alone)", "still waiting after 5s: a lock taken under the schedule was never given back")
+				return
+			}
+			if i < len(results[p]) && results[p][i] != want && k.Cache != "proto.type" {
 				fail("result under the schedule", want, results[p][i])
 			}
 		}
